@@ -52,18 +52,27 @@ def rowChains (root : Str) : List Frame → List Cells → List Chain
          | some c =>
            (pre ++ [(name, if c = "repeat".toList then Kind.rep else Kind.group)]) ::
              rowChains root ({ ct := c, name } :: st) rs
-         | none => (pre ++ [(name, Kind.q)]) :: rowChains root st rs)
+         | none =>
+           -- `xml-external` / `csv-external` rows become `ExternalInstance` elements: neither Question nor Section,
+           -- so `_setup_xpath_dictionary` does not enter their names
+           if t = "xml-external".toList || t = "csv-external".toList then rowChains root st rs
+           else (pre ++ [(name, Kind.q)]) :: rowChains root st rs)
     | some t, none =>
       (match Rows.matchControl "end" false t with
        | some _ => rowChains root (st.drop 1) rs
        | none => rowChains root st rs)
     | _, _ => rowChains root st rs
 
-/-- `survey.iter_descendants()` as far as names matter: the root, the rows, the generated meta block -/
-def chainsOfRows (root : Str) (hasEntity : Bool) (survey : List Cells) : List Chain :=
+/-- the elements `Survey._setup_xpath_dictionary` enters into the `${name}` table (survey.py 1126-1137:
+    `iter_descendants(lambda i: isinstance(i, Question | Section))`): the root, the named rows except
+    external-instance rows, the generated `meta` group (when it has any child) and its question children
+    (`metaQs`: audit / instanceID / instanceName).  The `EntityDeclaration` (a bare `SurveyElement` named
+    `entity`) is *not* among them, so a question may be called `entity` and be referenced. -/
+def chainsOfRows (root : Str) (hasEntity : Bool) (survey : List Cells) (metaQs : List Str := ["instanceID".toList]) :
+    List Chain :=
   [(root, .group)] :: rowChains root [] survey ++
-    [[(root, .group), (metaName, .group)], [(root, .group), (metaName, .group), ("instanceID".toList, .q)]] ++
-    (if hasEntity then [entityChain root] else [])
+    (if metaQs.isEmpty && !hasEntity then [] else [[(root, .group), (metaName, .group)]]) ++
+    metaQs.map fun n => [(root, .group), (metaName, .group), (n, .q)]
 
 /-- the `sub` of the entity declaration of a form (total: an unresolvable reference leaves the text as it is —
     the driver reports such forms as outside the fragment, see `refsResolve`) -/
